@@ -82,6 +82,8 @@ class World:
             else:
                 ns[tu["attr"]] = tunable(d, **kw)
         ns["__annotations__"] = ann
+        if shape.get("falsy_owner"):
+            ns["__len__"] = lambda self_: 0          # an owner object that is falsy (an empty container, say)
         self.cls = type("TunOwner%d" % self.uid, (), ns)
         # names are made unique per trace: NetworkTables topics persist inside the process
         self.names = [x["name"] if x["kind"] == "robot" else "%s_%d_%d" % (x["name"], os.getpid(), self.uid)
@@ -184,7 +186,7 @@ def gen_shape(rng):
         if kind == "robot" and any(x["kind"] == "robot" for x in insts):
             kind = "components"
         insts.append({"kind": kind, "name": "robot" if kind == "robot" else rng.choice(["n1", "n2", "a"]) + str(j)})
-    return {"tunables": tun, "insts": insts}
+    return {"tunables": tun, "insts": insts, "falsy_owner": rng.random() < 0.25}
 
 
 def random_events(rng, shape):
